@@ -7,7 +7,8 @@
    the given values; the four instances are u64 / i64 / String / Vec<u8>, [nullable]
    selects `Option<T>`.  [wf_vals]: every value is in the range of its Rust type, nulls
    only when nullable, fewer than 2^63 values. *)
-From AM Require Import Base.Prelude Base.Leb128 Hexane.Hleb Hexane.HlebProofs Hexane.Rle Hexane.RleProofs.
+From AM Require Import Base.Prelude Base.Leb128 Hexane.Hleb Hexane.HlebProofs Hexane.Rle Hexane.RleProofs
+  Hexane.BoolCol Hexane.BoolColProofs Hexane.Delta Hexane.DeltaProofs.
 Local Open Scope N_scope.
 
 (* 1. save then load gives the same values: per column type *)
@@ -133,6 +134,92 @@ Proof.
   apply wf_bytesb_spec. vm_compute. reflexivity.
 Qed.
 
+Theorem C35_i64_load_canonical : forall nullable (b : bytes) rs,
+  wf_bytes b -> i64_load nullable b = Ok rs ->
+  raw_parse Z i64_dec (S (length b)) 0 b = (segs_aux Z false rs, TEnd) /\
+  group Z Z.eqb (expand Z rs) = rs.
+Proof.
+  intros nullable b rs. apply (C35_rle_load_canonical Z Z.eqb i64_enc i64_dec nullable wf_i64 Z_eqb_spec i64_dec_enc i64_enc_nonempty i64_dec_wf).
+Qed.
+Theorem C35_str_load_canonical : forall nullable (b : bytes) rs,
+  wf_bytes b -> str_load nullable b = Ok rs ->
+  raw_parse bytes str_dec (S (length b)) 0 b = (segs_aux bytes false rs, TEnd) /\
+  group bytes bytes_eqb (expand bytes rs) = rs.
+Proof.
+  intros nullable b rs. apply (C35_rle_load_canonical bytes bytes_eqb str_enc str_dec nullable wf_str bytes_eqb_spec str_dec_enc str_enc_nonempty str_dec_wf).
+Qed.
+Theorem C35_blob_load_canonical : forall nullable (b : bytes) rs,
+  wf_bytes b -> blob_load nullable b = Ok rs ->
+  raw_parse bytes blob_dec (S (length b)) 0 b = (segs_aux bytes false rs, TEnd) /\
+  group bytes bytes_eqb (expand bytes rs) = rs.
+Proof.
+  intros nullable b rs. apply (C35_rle_load_canonical bytes bytes_eqb blob_enc blob_dec nullable wf_blob bytes_eqb_spec blob_dec_enc blob_enc_nonempty blob_dec_wf).
+Qed.
+
+(* 5. boolean columns: the same four statements *)
+Theorem C35_bool_load_save : forall l : list bool,
+  N.of_nat (length l) < pow64 -> bool_load_vals (bool_save l) = Ok l.
+Proof. exact bool_load_vals_save. Qed.
+
+Theorem C35_bool_resave : forall (b : bytes) rs,
+  wf_bytes b -> bool_load b = Ok rs -> bool_load (bool_save (bexpand rs)) = Ok rs.
+Proof. exact bool_resave. Qed.
+
+Theorem C35_bool_load_canonical : forall (b : bytes) rs,
+  wf_bytes b -> bool_load b = Ok rs ->
+  bool_raw (S (length b)) true b = (bcounts_of_runs rs, BEnd) /\ bgroup (bexpand rs) = rs.
+Proof.
+  intros b rs Hwf H. split.
+  - destruct (bool_load_canonical b rs Hwf H) as (E & _ & _). exact E.
+  - exact (bool_load_group b rs Hwf H).
+Qed.
+
+Theorem C35_bool_never_panics_partial : forall b : bytes,
+  bool_load b = Panic -> pow64 <= bool_declared b.
+Proof. exact bool_load_panic. Qed.
+
+Theorem C35_bool_never_panics_refuted : exists b : bytes, wf_bytes b /\ bool_load b = Panic.
+Proof.
+  exists [255;255;255;255;255;255;255;255;255;1;1]. split; [|vm_compute; reflexivity].
+  apply wf_bytesb_spec. vm_compute. reflexivity.
+Qed.
+
+(* 6. delta columns.  [lo],[hi]: the i64 domain of the element type.  The delta loader
+   accepts a subset of the i64 RLE loader with the same runs, so canonical form and the
+   panic scope transfer; re-save is proved; of the save/load round trip only the second half
+   is proved (IF the loader accepts the writer's output THEN it holds the same values):
+   that the per-slab domain check accepts every in-domain list is checked differentially. *)
+Theorem C35_delta_load_is_rle_load : forall nullable lo hi (b : bytes) rs,
+  delta_load nullable lo hi b = Ok rs -> i64_load nullable b = Ok rs.
+Proof. exact delta_load_rle. Qed.
+
+Theorem C35_delta_never_panics_partial : forall nullable lo hi (b : bytes),
+  delta_load nullable lo hi b = Panic ->
+  has_min_header Z i64_dec b = true \/ pow64 <= declared_items Z i64_dec b.
+Proof.
+  intros nullable lo hi b H. apply delta_load_panic_rle in H.
+  exact (rle_load_panic Z Z.eqb (fun _ => []) i64_dec nullable b H).
+Qed.
+
+Theorem C35_delta_resave : forall nullable lo hi (b : bytes) rs,
+  wf_bytes b -> delta_load nullable lo hi b = Ok rs ->
+  delta_load nullable lo hi (delta_save (realize 0 (expand Z rs))) = Ok rs.
+Proof. exact delta_resave. Qed.
+
+Theorem C35_delta_load_save_partial : forall nullable lo hi (vs : list (option Z)) rs,
+  wf_vals Z nullable wf_i64 (deltas 0 vs) ->
+  delta_load nullable lo hi (delta_save vs) = Ok rs ->
+  rs = group Z Z.eqb (deltas 0 vs) /\ realize 0 (expand Z rs) = vs.
+Proof. exact delta_load_save_partial. Qed.
+
+(* 7. the varints under all of it: hexane's writers against the leb128 crate's readers *)
+Theorem C35_varint_unsigned_roundtrip : forall n rest,
+  n < pow64 -> hleb_u (hleb_uenc n ++ rest) = Some (n, rest).
+Proof. exact hleb_u_roundtrip. Qed.
+Theorem C35_varint_signed_roundtrip : forall z rest,
+  in_i64 z -> hleb_s (hleb_senc z ++ rest) = Some (z, rest).
+Proof. exact hleb_s_roundtrip. Qed.
+
 (* non-vacuity *)
 Example C35_u64_load_save_nonvacuous :
   wf_vals N true wf_u64 [Some 1; Some 1; Some 2; None; None; Some 18446744073709551615] /\
@@ -145,4 +232,12 @@ Proof.
 Qed.
 Example C35_u64_resave_nonvacuous :
   u64_load false [130;0;133;0] = Ok [(2, Some 5)] /\ u64_save (expand N [(2, Some 5)]) = [2;5].
+Proof. split; vm_compute; reflexivity. Qed.
+Example C35_bool_nonvacuous :
+  bool_save [true; true; false] = [0;2;1] /\ bool_load [0;2;1] = Ok [(2, true); (1, false)].
+Proof. split; vm_compute; reflexivity. Qed.
+Example C35_delta_nonvacuous :
+  delta_save [Some 100%Z; Some 101%Z; Some 102%Z; None; Some 200%Z] = [127;228;0;2;1;0;1;127;226;0] /\
+  delta_load_vals true 0 9223372036854775807 [127;228;0;2;1;0;1;127;226;0]
+    = Ok [Some 100%Z; Some 101%Z; Some 102%Z; None; Some 200%Z].
 Proof. split; vm_compute; reflexivity. Qed.
